@@ -599,8 +599,50 @@ def witnesses():
     return w
 
 
+def long_doc(shift, total, variant, o):
+    """Deterministic multi-graph document: the first graph is padded so that its SimpleDMRS encoding has
+    `shift` more tokens than the unpadded one (properties are 3 tokens, type and lnk 1 each), then a fixed
+    cycle of small graphs until the one-line text has more than `total` lexer tokens.  Graph boundaries
+    therefore fall at different offsets around the multiples of the lexer's 1024-token look-ahead buffer."""
+    a, b = divmod(shift, 3)
+    props = [("P%d" % i, "v%d" % i) for i in range(a)]
+    first = dmrs_j(10000, 10000,
+                   [node_j(10000, "_pad_v_1", "e" if b >= 1 else None, props, lnk=["c", 0, 3] if b >= 2 else None)], [])
+    cycle = [
+        dmrs_j(10000, 10000, [node_j(10000, "_rain_v_1", "e", [("TENSE", "past"), ("SF", "prop")], lnk=["c", 0, 5])], [],
+               lnk=["c", 0, 5], surface="it rains", identifier="i1"),
+        dmrs_j(10001, None, [node_j(10000, "_the_q", None, lnk=["c", 0, 3]), node_j(10001, "_dog_n_1", "x", [("NUM", "sg")], lnk=["c", 4, 7]),
+                             node_j(10002, "named", "x", [("PERS", "3")], carg="Kim \"K\"", lnk=["c", 8, 11])],
+               [link_j(10000, 10001, "RSTR", "H"), link_j(10001, 10002, "MOD", "EQ")]),
+        dmrs_j(10000, None, [node_j(10000, "_x_n_1", None, [("IND", "+")])], []),
+        dmrs_j(10000, 10001, [node_j(10000, "_a_a_1", "e"), node_j(10001, "_b_n_1", "x")],
+               [link_j(10000, 10001, "ARG1", "EQ"), link_j(10000, 10001, None, "EQ")], identifier="x-2"),
+        dmrs_j(None, None, [], []),
+        dmrs_j(10000, None, [node_j(10000, "udef_q", None), node_j(10001, "_c_n_1", "x", [("A", "b")])],
+               [link_j(10000, 10001, "RSTR", "H")]),
+    ]
+    cycle = cycle[variant % len(cycle):] + cycle[:variant % len(cycle)]
+    ds = [first]
+    n = len(lex(simpledmrs.encode(build(first), **o)))
+    i = 0
+    while n <= total:
+        g = cycle[i % len(cycle)]
+        ds.append(copy.deepcopy(g))
+        n += len(lex(simpledmrs.encode(build(g), **o)))
+        i += 1
+    return ds
+
+
+def big_graph(k):
+    """one DMRS whose SimpleDMRS text has well over 1024 tokens"""
+    nodes = [node_j(10000 + i, "_n%d_n_1" % i, ["x", "e", None, "i"][i % 4], [("NUM", "sg")] if i % 3 == 0 else [],
+                    carg="c%d" % i if i % 5 == 0 else None, lnk=["c", i, i + 1] if i % 2 == 0 else None) for i in range(k)]
+    links = [link_j(10000 + i, 10000 + i - 1, "ARG1" if i % 2 else None, "NEQ" if i % 2 else "EQ") for i in range(1, k)]
+    return dmrs_j(10000, 10000 + k - 1, nodes, links, lnk=["c", 0, k], surface="s", identifier="big")
+
+
 OPTS = [{"properties": p, "lnk": l} for p in (True, False) for l in (True, False)]
-INDENTS = [None, "true", 0, 1, 3]
+INDENTS = [None, "true", 0, 1, 2, 3, 4]
 
 
 class C02(Check):
@@ -641,6 +683,19 @@ class C02(Check):
                     count += 1
         for p in PREDS + ODD_PREDS:
             yield {"kind": "pred", "p": cps(p)}
+            count += 1
+        # long documents (the lexer's look-ahead buffer holds 1024 tokens), every run
+        full = {"properties": True, "lnk": True}
+        for shift in range(0, 12):
+            total = 1100 if shift % 2 == 0 else 2200
+            ind = [None, "true", 2][shift % 3]
+            oo = full if shift % 4 else {"properties": False, "lnk": True}
+            yield {"kind": "rt", "name": "long-%d" % shift, "long": True, "ds": long_doc(shift, total, shift, oo),
+                   "o": oo, "indent": ind, "single": False}
+            count += 1
+        for k, ind in ((130, None), (150, "true")):
+            yield {"kind": "rt", "name": "big-%d" % k, "long": True, "ds": [big_graph(k)], "o": full, "indent": ind,
+                   "single": True}
             count += 1
         yield from self.random_cases(rng, max(0, n - count))
 
@@ -901,6 +956,24 @@ class C02(Check):
                         fail("dmrspenman: re-encoding a one-node graph does not reproduce the text", [text[:300], again[:300]])
             except Exception as e:
                 fail("%s: re-encoding the decoded graph raises" % cname, "%s: %s" % (type(e).__name__, e))
+            # purity / order independence: the same call gives the same text whatever was called before
+            self.purity(fail, c, mod, cname, ds, o)
+            # the file API
+            if not single:
+                try:
+                    buf = io.StringIO()
+                    mod.dump(ds, buf, indent=ind, **o)
+                    if buf.getvalue().rstrip("\n") != text.rstrip("\n"):
+                        fail("%s: dump() writes a different text than dumps()" % cname, None)
+                    loaded = mod.load(io.StringIO(buf.getvalue()))
+                    if [canon_dmrs(x) for x in loaded] != [canon_dmrs(x) for x in back]:
+                        fail("%s: load(dump(ds)) differs from loads(dumps(ds))" % cname, [len(loaded), len(back)])
+                except Exception as e:
+                    fail("%s: dump()/load() raises" % cname, "%s: %s" % (type(e).__name__, e))
+            if case.get("long") and c == "sd":
+                ntok = len(lex(text))
+                if ntok <= 1024:
+                    fail("harness: long document is not longer than the look-ahead buffer", ntok)
             # indentation and the API change the layout only
             if ind is not None or not single:
                 try:
@@ -910,11 +983,6 @@ class C02(Check):
                 except Exception as e:
                     fail("%s: one-line single encoding not readable" % cname, "%s: %s" % (type(e).__name__, e))
             # file API agrees with the string API
-            if c == "sd" and not single:
-                buf = io.StringIO()
-                mod.dump(ds, buf, indent=ind, **o)
-                if buf.getvalue() != text + "\n":
-                    fail("simpledmrs: dump() differs from dumps()", None)
         # side oracles for the parameters of the model
         for d in ds:
             try:
@@ -940,6 +1008,60 @@ class C02(Check):
                 except Exception as e:
                     fail("side: penman rejects the triples of an in-domain graph", "%s: %s" % (type(e).__name__, e))
         return fails
+
+    PURITY_ORDER = [("s", None), ("s", 2), ("s", None), ("s", 4), ("s", None), ("s", True), ("l", None), ("l", 2),
+                    ("l", True), ("l", 4), ("l", None), ("s", None), ("s", 2), ("l", 2), ("s", 4)]
+
+    def purity(self, fail, c, mod, cname, ds, o):
+        """Interleave indent settings and single/list API; every repeated call must return what it returned
+        the first time; compact output has the compact layout; and at the end the compact re-encoding of
+        decode(t0) is still t0."""
+        first = {}
+        t0 = None
+        for api, ind in self.PURITY_ORDER:
+            if api == "s" and not ds:
+                continue
+            try:
+                out = mod.encode(ds[0], indent=ind, **o) if api == "s" else mod.dumps(ds, indent=ind, **o)
+            except Exception as e:
+                out = ("raises", type(e).__name__)
+            key = (api, repr(ind))
+            if key not in first:
+                first[key] = out
+                if key == ("s", "None"):
+                    t0 = out
+            elif first[key] != out:
+                fail("%s: the same encode call returns a different text after other calls (state leaks between calls)"
+                     % cname, {"api": api, "indent": repr(ind), "first": str(first[key])[:300], "now": str(out)[:300]})
+                return
+        for key, out in first.items():
+            if key[1] != "None" or not isinstance(out, str):
+                continue
+            bad = None
+            if c in ("sd", "p") and "\n" in out.strip("\n") and key[0] == "s":
+                bad = "line break in a one-line encoding"
+            elif c == "j":
+                import json as _json
+                if _json.dumps(_json.loads(out)) != out:
+                    bad = "not the compact JSON layout"
+            elif c == "x":
+                root = etree.fromstring(out)
+                for e in root.iter():
+                    if (e.tail or "").strip() == "" and e.tail:
+                        bad = "white space after <%s> in a compact encoding" % e.tag
+                    if len(e) and e.text:
+                        bad = "white space inside <%s> in a compact encoding" % e.tag
+            if bad:
+                fail("%s: compact encoding does not have the compact layout" % cname, {"what": bad, "text": out[:300]})
+                return
+        if isinstance(t0, str) and c != "p":
+            try:
+                again = mod.encode(mod.decode(t0), **o)
+            except Exception as e:
+                again = ("raises", type(e).__name__)
+            if again != t0:
+                fail("%s: after the interleaved calls, re-encoding decode(t0) no longer gives t0" % cname,
+                     [t0[:300], str(again)[:300]])
 
     def classify(self, case, failure):
         """F11: SimpleDMRS, a node of type 'u' comes back with type None, nothing else."""
